@@ -134,6 +134,21 @@ pub fn gen(o: &Opts, sink: &mut dyn FnMut(Vec<i64>, String)) {
         c.push(2);
         put!(c);
     }
+    // ... nor do extreme command values: full reverse (-32768), full forward, -1 and change sets mixing them are commands like any
+    // other - the handler survives them and the commands behind them, the closing stop-all above all, still go out
+    for j in 0..(if o.tier_thorough { 200u64 } else { 24 }) {
+        let mut rng = Rng::new(o.seed, 15_800 + j);
+        let mut c = vec![1000]; c.extend(crate::c10::config(&[(1, 0x4a, None, 0)]));
+        c.push(5); c.push(2);
+        let ext = |rng: &mut Rng| *rng.pick(&[-32768i64, -32767, -1, 0, 1, 32767]);
+        for _ in 0..(2 + rng.below(4)) {
+            if rng.chance(1, 2) { let v = ext(&mut rng); c.extend([3, 5, v]); }
+            else { let n = 1 + rng.below(6) as i64; c.extend([3, 16, n]); for _ in 0..n { let a = rng.below(6) as i64; let v = ext(&mut rng); c.extend([a, v]); } }
+        }
+        c.extend([3, 0]);
+        c.push(2);
+        put!(c);
+    }
     // ... and neither does a unit that has been silent for longer than its receive timeout (150 ms): commands
     // accepted while the unit is considered offline still go out, the stop-all above all
     for j in 0..(if o.tier_thorough { 60u64 } else { 8 }) {
